@@ -420,11 +420,13 @@ for rd in ('mysql', 'postgresql', 'sqlite', 'mssql', 'oracle'):
 RENDER_WP = ["insert into t (a, b) values (1, 'x'), (2, null)", "insert into a.t (a, b, c) values (1.0, true, 'q')", "insert into t (a) values (1)",
              "insert into t (a, b) select a, b from t2", "select a from t where b = 1 and c = 1.0 and d = true", "select 0, 0.0, false, 1, 1.0, true from t",
              "update t set a = 1.0 where b = 1", "delete from t where a = true or b = 1 or c = 1.0", "select a from t where b in (1, 1.0, 2, 2.0)"]
-for rd in ('mysql', 'postgresql', 'sqlite', 'mssql', 'oracle'):
+for rd in ('mysql', 'postgresql', 'sqlite', 'mssql', 'oracle', 'postgres', 'Snowflake'):
     for s_ in RENDER_WP:
         render_ops.append({'k': 'render', 'd': 'mindsdb', 'sql': s_, 'rd': rd, 'fb': True, 'wp': True})
         render_ops.append({'k': 'render', 'd': 'mindsdb', 'sql': s_, 'rd': rd, 'fb': False})
 fam('render_kinds', [o for o in render_ops if o['sql'] in RENDER_EXTRA and o['rd'] in ('mysql', 'postgresql')])
+# the two alias names of the renderer's dialect table next to the dialects they map to
+fam('render_aliases', [o for o in render_ops if o['sql'] in RENDER_WP and o['rd'] in ('oracle', 'Snowflake', 'postgres', 'postgresql')])
 for rd in ('mysql', 'postgresql', 'sqlite', 'mssql', 'oracle'):
     fam('render_values_' + rd, [o for o in render_ops if o['sql'] in RENDER_WP and o['rd'] == rd])
 
@@ -438,6 +440,13 @@ fam('reserved_words', [
 ])
 for _n, _ops in errstate_fams.items():
     fam(_n, _ops)
+# statements with '?' placeholders: parsed, planned (the planner edits the tree it is given) and parsed again
+PH = ["select * from int.tab1 where id = ? and name <> 'a'", "select a, ? from int.tab1 where b in (?, ?)", "insert into int.t (a, b) values (?, ?)",
+      "update int.t set a = ? where b = ?", "delete from int.t where a = ?", "select * from mindsdb.pred where x = ?",
+      "select t.a, m.p from int.tab1 t join mindsdb.pred m where t.x > ?", "select * from int.tab1 t1 join int2.tab2 t2 on t1.a = t2.a where t1.b = ?"]
+fam('placeholders', [x for q_ in PH for x in (
+    {'k': 'parse', 'd': 'mindsdb', 'sql': q_}, {'k': 'parse', 'd': 'mysql', 'sql': q_}, P(q_, cA),
+    {'k': 'flow', 'd': 'mindsdb', 'sql': q_, 'cat': cA, 'rd': 'mysql'}, {'k': 'render', 'd': 'mindsdb', 'sql': q_, 'rd': 'postgresql', 'fb': True})])
 # same text family: identical statements many times (text-keyed caches)
 fam('same_text', [
     {'k': 'parse', 'd': 'mindsdb', 'sql': "select a, b from t where a = 1"},
